@@ -60,23 +60,24 @@ package controller
 //@   prop C08
 //@   requires ctlwf(c) && epsok(endpoints)
 //@   modifies procseq, hostaddat, lastop, atombool
-//@   ensures @applied-to-the-named-processor-only (len(endpoints) > 0 && has(c.procs, svcName) ==> procseq == old(procseq) + 1 && hostaddat == procseq && lastop == c.procs[svcName]) && (!(len(endpoints) > 0 && has(c.procs, svcName)) ==> procseq == old(procseq))
+//@   ensures @applied-to-the-named-processor-only (len(endpoints) > 0 && has(c.procs, svcName) ==> procseq == old(procseq) + 1 && hostaddat == procseq && lastop == c.procs[svcName]) && (!(len(endpoints) > 0 && has(c.procs, svcName)) ==> procseq == old(procseq) && hostaddat == old(hostaddat) && lastop == old(lastop))
 
 //@ func (*Controller).handleSvcEndpointsRemove
 //@   prop C08
 //@   requires ctlwf(c) && epsok(endpoints)
 //@   modifies procseq, hostrmat, lastop, atombool
-//@   ensures @applied-to-the-named-processor-only (len(endpoints) > 0 && has(c.procs, svcName) ==> procseq == old(procseq) + 1 && hostrmat == procseq && lastop == c.procs[svcName]) && (!(len(endpoints) > 0 && has(c.procs, svcName)) ==> procseq == old(procseq))
+//@   ensures @applied-to-the-named-processor-only (len(endpoints) > 0 && has(c.procs, svcName) ==> procseq == old(procseq) + 1 && hostrmat == procseq && lastop == c.procs[svcName]) && (!(len(endpoints) > 0 && has(c.procs, svcName)) ==> procseq == old(procseq) && hostrmat == old(hostrmat) && lastop == old(lastop))
 
 //@ func (*Controller).handleSvcConfigUpdate
 //@   prop C08
 //@   requires ctlwf(c)
 //@   modifies procseq, cfgupdat, lastop
-//@   ensures @applied-to-the-named-processor-only (has(c.procs, svcName) ==> procseq == old(procseq) + 1 && cfgupdat == procseq && lastop == c.procs[svcName]) && (!has(c.procs, svcName) ==> procseq == old(procseq))
+//@   ensures @applied-to-the-named-processor-only (has(c.procs, svcName) ==> procseq == old(procseq) + 1 && cfgupdat == procseq && lastop == c.procs[svcName]) && (!has(c.procs, svcName) ==> procseq == old(procseq) && cfgupdat == old(cfgupdat) && lastop == old(lastop))
 
 //@ func (*Controller).handleEvent
 //@   prop C08
 //@   requires ctlwf(c) && evt != nil
+//@   requires @trace-marks-in-the-past hostaddat <= procseq && hostrmat <= procseq
 //@   requires @events-carry-complete-endpoints (typeis(evt, "*config.SvcAddEvent") ==> ifaceptr(evt, "*config.SvcAddEvent") != nil && epsok(ifaceptr(evt, "*config.SvcAddEvent").Endpoints)) && (typeis(evt, "*config.SvcEndpointEvent") ==> ifaceptr(evt, "*config.SvcEndpointEvent") != nil && epsok(ifaceptr(evt, "*config.SvcEndpointEvent").Added) && epsok(ifaceptr(evt, "*config.SvcEndpointEvent").Removed)) && (typeis(evt, "*config.SvcRemoveEvent") ==> ifaceptr(evt, "*config.SvcRemoveEvent") != nil) && (typeis(evt, "*config.SvcConfigEvent") ==> ifaceptr(evt, "*config.SvcConfigEvent") != nil)
 //@   modifies mapof(c.procs), procseq, hostaddat, hostrmat, cfgupdat, stopat, lastop, atombool
 //@   ensures @well-formed ctlwf(c)
